@@ -114,6 +114,9 @@ def rule_conversion(ctx: Ctx, repo: Repo) -> Dict[str, str]:
     for pos, mk in (("argument", lambda t: trace(arg=t)), ("return", lambda t: trace(ret=t)), ("yield", lambda t: trace(yld=t))):
         scenarios.append((f"{pos} class removed", mk(OTHER), lambda w: w.remove("pkg.other", "Thing")))
         scenarios.append((f"{pos} class's module removed", mk(OTHER), lambda w: w.remove("pkg.other")))
+        scenarios.append((f"{pos} class's top-level package removed (class four packages deep)", mk(CM.DEEP), lambda w: [w.remove(m_) for m_ in ("vendor", "vendor.db", "vendor.db.models", "vendor.db.models.types")]))
+        scenarios.append((f"{pos} class's grand-parent package removed (class four packages deep)", mk(CM.DEEP), lambda w: [w.remove(m_) for m_ in ("vendor.db", "vendor.db.models", "vendor.db.models.types")]))
+        scenarios.append((f"{pos} class's own module removed (class four packages deep)", mk(CM.DEEP), lambda w: w.remove("vendor.db.models.types")))
         scenarios.append((f"{pos} class removed (nested in List[...])", mk(CM.gen("List", OTHER)), lambda w: w.remove("pkg.other", "Thing")))
         scenarios.append((f"{pos} class removed (nested in Dict[str, Optional[...]])", mk(CM.gen("Dict", CM.STR, CM.gen("Union", OTHER, CM.NONE_T))), lambda w: w.remove("pkg.other", "Thing")))
         scenarios.append((f"{pos} class removed (field of a TypedDict)", mk(CM.anon_td({"k": OTHER})), lambda w: w.remove("pkg.other", "Thing")))
